@@ -8,6 +8,7 @@ d R-HANDLER / thresholds: REDItools intron handler re-raises otherwise; each thr
                  location computed per transcript from the genomic coordinate
 """
 import ast
+import re
 from sa.model import unparse, norm_stmt, call_name, kwarg, walk_no_nested, AnalysisError
 from sa.cfg import CFG, literal
 from sa import guards as G
@@ -71,15 +72,16 @@ def run(chk, repo):
                 chk.ob('C14.a', f"{label}: deletion ALT is the single anchor base (at start, or last base when anchored at the transcript start)", f.where, okd,
                        f"deletion ALT read from {alt!r}", key=key + '::del-alt', fn=f.qual)
             # plain substitution path: no anchoring
-            if not is_del and not any(c in ('alt_end - alt_start == 1', 'alt_end - alt_start == 2') for c in conds) and \
-                    any(c.startswith('alt_position.find') for c in conds):
+            sg_, eg_ = p.env.get('alt_start_genomic'), p.env.get('alt_end_genomic')
+            independent = isinstance(sg_, Aff) and isinstance(eg_, Aff) and not (eg_ - sg_).is_const()
+            if not is_del and not any(c in ('alt_end - alt_start == 1', 'alt_end - alt_start == 2') for c in conds) and independent:
                 # the multi-base range form: genomic start and end are independent symbols
                 plain[s] = (st, en, p.env.get('alt_start_genomic'), p.env.get('alt_end_genomic'))
     chk.paths += npaths
     S, E = Aff.sym('S'), Aff.sym('E')
     for s in (1, -1):
         if s not in plain:
-            chk.ob('C14.b', f"strand {s:+d}: plain substitution path found", f.where, False, 'path not found', key=f"{VEP}::plain::{s:+d}", fn=f.qual)
+            chk.undecided('C14.b', f"strand {s:+d}: plain substitution path", f.where, 'the multi-base range path of convert_to_variant_record was not recognised', key=f"{VEP}::plain::{s:+d}", fn=f.qual)
             continue
         st, en, gs, ge = plain[s]
         want = (gs - S, ge - S) if s == 1 else (E - ge, E - gs)
@@ -150,19 +152,34 @@ def run(chk, repo):
     chk.ob('C14.d', 'handler: index-in-intron -> skip the transcript; anything else re-raised', repo.loc(r, hs[0]) if hs else r.where, ok and badp is None,
            'a ValueError other than ERROR_INDEX_IN_INTRON is swallowed and a record is emitted for a transcript in which the site is not exonic',
            key=RED + '::handler', path=badp.describe(r.module.relpath) if badp else None, fn=r.qual)
-    # thresholds
+    # thresholds: on the normal form (comprehensions unrolled, locals propagated) every substitution that is kept is known
+    # to have passed each of the four tests, written with the exact comparison of the documented rule
+    from sa import sem
     thr = {'min_coverage_rna': 'total_count', 'min_coverage_dna': 'self.g_coverage_q', 'min_coverage_alt': 'read_count', 'min_frequency_alt': 'read_count / total_count'}
+    ng = sem.nf(repo, g, idioms=True)
+    loops = [l for l in ast.walk(ng) if isinstance(l, ast.For) and unparse(l.iter) == 'self.all_subs' and isinstance(l.target, ast.Name)]
+    if len(loops) != 1:
+        raise AnalysisError(f"anchor={SUBS}: loop over self.all_subs not found ({len(loops)})")
+    X = loops[0].target.id
+    cfg_g = CFG(ng)
+    keep = [(st, fx) for st, fx in sem.facts_where(ng, lambda st: sem.own_stmt(st) and any(len(c.args) == 1 and unparse(c.args[0]) == X for c in sem.calls_in_stmt(st, 'append')))]
+    RC = f'self.base_count[self.base_count_order[{X}[1]]]'
+    TOT = 'sum(self.base_count)'
+    want_false = {
+        'min_coverage_rna': f'{TOT} < min_coverage_rna',
+        'min_coverage_alt': f'{RC} < min_coverage_alt',
+        'min_frequency_alt': f'{RC} / {TOT} < min_frequency_alt',
+    }
     for tname, val in thr.items():
-        uses = [c for c in ast.walk(g.node) if isinstance(c, ast.Compare) and any(isinstance(n, ast.Name) and n.id == tname for n in ast.walk(c))]
-        ok = len(uses) == 1 and literal(uses[0]) == (f"{val} < {tname}", True)
-        ctx_ok = False
-        if ok:
-            for a in repo.ancestors(uses[0]):
-                if isinstance(a, ast.If):
-                    ctx_ok = G.block_leaves(a.body) and not any(isinstance(x, ast.Call) and call_name(x) == 'append' for b in a.body for x in ast.walk(b))
-                    break
-        chk.ob('C14.d', f"threshold {tname}: used once as `{val} < {tname}` -> reject", g.where, ok and ctx_ok,
-               f"{tname} is used as {[unparse(u) for u in uses]} (expected exactly one reject comparison `{val} < {tname}`)",
+        if tname == 'min_coverage_dna':
+            ok = bool(keep) and all(sem.known(fx, 'self.g_coverage_q == -1 or (self.g_coverage_q is not None and not self.g_coverage_q < min_coverage_dna)') is True for _st, fx in keep)
+            want_t = 'g_coverage_q == -1 or (g_coverage_q is not None and g_coverage_q >= min_coverage_dna)'
+        else:
+            ok = bool(keep) and all(sem.known(fx, want_false[tname]) is False for _st, fx in keep)
+            want_t = f'not ({want_false[tname]})'
+        uses = sorted({unparse(c) for c in ast.walk(ng) if isinstance(c, ast.Compare) and any(isinstance(n, ast.Name) and n.id == tname for n in ast.walk(c))})
+        chk.ob('C14.d', f"threshold {tname}: a substitution is kept only if `{want_t}`", g.where, ok,
+               f"{tname} is used as {uses}: a kept substitution is not known to satisfy `{want_t}` (expected exactly the reject comparison `{val} < {tname}`)",
                key=SUBS + f'::threshold::{tname}', fn=g.qual)
     # thresholds threaded by name
     call = G.find_calls(r.node, 'get_valid_subs')
@@ -175,15 +192,28 @@ def run(chk, repo):
         all(any(isinstance(n, ast.AnnAssign) and unparse(n.target) == t and unparse(n.value) == f"args.{t}" for n in walk_no_nested(cli.node)) for t in thr)
     chk.ob('C14.d', 'CLI binds each threshold option to the parameter of the same name', cli.where, ok, 'CLI threshold binding altered', key=cli.qual + '::threshold-threading', fn=cli.qual)
     # location computed inside the per-transcript loop from the genomic coordinate and this transcript's gene
-    loop = next((l for l in G.find_for(r.node) if unparse(l.iter) == '_ids'), None)
-    ok = loop is not None
+    nr = sem.nf(repo, r, idioms=True)
+    chains = sem.block_chains(nr)
+    ok = False
+    loop = None
+    for st_ in ast.walk(nr):
+        for c in (sem.calls_in_stmt(st_, 'FeatureLocation') if isinstance(st_, ast.stmt) and sem.own_stmt(st_) else []):
+            sn, sa_, se = (kwarg(c, k_) for k_ in ('seqname', 'start', 'end'))
+            if sn is None or sa_ is None or se is None:
+                continue
+            sn_t = unparse(sem.expand_names(nr, st_, sn, chains=chains))
+            st_t = unparse(sem.expand_names(nr, st_, sa_, chains=chains))
+            en_t = unparse(sem.expand_names(nr, st_, se, chains=chains))
+            m_ = re.fullmatch(r'anno\.transcripts\[(\w+)\]\.transcript\.gene_id', sn_t)
+            if not m_:
+                continue
+            TX = m_.group(1)
+            loop = next((l for l in ast.walk(nr) if isinstance(l, ast.For) and isinstance(l.target, ast.Name) and l.target.id == TX
+                         and any(x is st_ for b in l.body for x in ast.walk(b))), None)
+            ok = loop is not None and st_t == f'anno.coordinate_genomic_to_gene(self.position - 1, {sn_t})' and en_t == f'{st_t} + 1'
     if ok:
-        txt = [norm_stmt(s) for s in loop.body]
-        ok = 'gene_id = tx_model.transcript.gene_id' in txt and 'position = anno.coordinate_genomic_to_gene(self.position - 1, gene_id)' in txt and \
-            any(t.startswith('location = FeatureLocation(seqname=gene_id, start=position, end=position + 1)') for t in txt)
-        # not guarded by state carried across transcripts
-        for s in loop.body:
-            if isinstance(s, ast.If) and any(x in unparse(s.test) for x in ('location', 'position')):
+        for s_ in ast.walk(loop):
+            if isinstance(s_, ast.If) and any(x in unparse(s_.test) for x in ('location', 'position ')):
                 ok = False
     chk.ob('C14.d', 'gene id, gene position and location are recomputed for every transcript', repo.loc(r, loop) if loop else r.where, ok,
            'the location is not recomputed per transcript from (genomic position, that transcript\'s gene): transcripts of another overlapping gene get the first gene\'s coordinates',
